@@ -156,11 +156,102 @@ Proof.
     destruct r; try exact Hgoal. discriminate.
 Qed.
 
+(* only create_participant calls move the participant instance number *)
+Definition same_counter (f f' : factory) : Prop := f_next f' = f_next f /\ f_ovf f' = f_ovf f.
+Lemma same_counter_refl : forall f, same_counter f f. Proof. split; reflexivity. Qed.
+Lemma same_counter_trans : forall a b c, same_counter a b -> same_counter b c -> same_counter a c.
+Proof. unfold same_counter; intros a b c [H1 H2] [H3 H4]; split; congruence. Qed.
+
+Lemma mail_counter : forall pr w o w' r,
+    is_create_part o = false -> mail pr w o = (w', r) -> same_counter (w_f w) (w_f w').
+Proof.
+  intros pr w o w' r Hc Hm. unfold mail in Hm. destruct (fstep pr (w_f w) o) as [f1 r1] eqn:Hs.
+  inversion Hm; subst. cbn [w_f set_wf]. eapply fstep_counter_other; eauto.
+Qed.
+Lemma burn_counter : forall pr n f mk del done f' r,
+    is_create_part mk = false -> (forall h, is_create_part (del h) = false) ->
+    burn pr n f mk del done = (f', r) -> same_counter f f'.
+Proof.
+  intros pr n. induction n as [|n IH]; intros f mk del done f' r Hmk Hdel Hb; cbn [burn] in Hb.
+  - inversion Hb; subst. apply same_counter_refl.
+  - destruct (fstep pr f mk) as [f1 r1] eqn:Hs1.
+    pose proof (fstep_counter_other pr f mk f1 r1 Hmk Hs1) as H1.
+    destruct r1; try (inversion Hb; subst; exact H1).
+    destruct (fstep pr f1 (del h)) as [f2 r2] eqn:Hs2.
+    pose proof (fstep_counter_other pr f1 (del h) f2 r2 (Hdel h) Hs2) as H2.
+    pose proof (same_counter_trans _ _ _ H1 H2) as H12.
+    destruct r2; try (inversion Hb; subst; exact H12).
+    eapply same_counter_trans; [exact H12|]. eapply IH; eauto.
+Qed.
+
+Definition is_wp (o : wop) : bool := match o with WP _ => true | _ => false end.
+
+Ltac c_trivial Hw := inversion Hw; subst; apply same_counter_refl.
+Ltac c_mail Hw := eapply mail_counter; [|exact Hw]; reflexivity.
+Ltac c_push Hw :=
+  match type of Hw with
+  | context [match mail ?pr ?w ?x with _ => _ end] =>
+      let w1 := fresh "w1" in let r1 := fresh "r1" in let Hm := fresh "Hm" in
+      destruct (mail pr w x) as [w1 r1] eqn:Hm; destruct r1; inversion Hw; subst;
+      cbn [w_f push_part push_topic push_cft]; rewrite ?w_f_push_group, ?w_f_push_ep;
+      (eapply mail_counter; [|exact Hm]; reflexivity)
+  end.
+Ltac c_burn Hw :=
+  match type of Hw with
+  | context [burn ?pr ?n ?f ?mk ?del ?d] =>
+      let f1 := fresh "f1" in let r1 := fresh "r1" in let Hb := fresh "Hb" in
+      destruct (burn pr n f mk del d) as [f1 r1] eqn:Hb; inversion Hw; subst; cbn [w_f set_wf];
+      (eapply burn_counter; [| |exact Hb]; [reflexivity|intros; reflexivity])
+  end.
+
+Lemma wstep_counter : forall pr w o w' r,
+    is_wp o = false -> wstep pr w o = (w', r) -> same_counter (w_f w) (w_f w').
+Proof.
+  intros pr w o w' r Hc Hw.
+  destruct o; try discriminate; cbn [wstep] in Hw;
+    repeat match type of Hw with
+           | context [match ?x with _ => _ end] =>
+               match x with
+               | mail _ _ _ => fail 1
+               | burn _ _ _ _ _ _ => fail 1
+               | _ => destruct x eqn:?
+               end
+           end;
+    first [c_mail Hw | c_push Hw | c_burn Hw | c_trivial Hw].
+Qed.
+
+Definition n_wp (ops : list wop) : Z := Z.of_nat (length (filter is_wp ops)).
+
+Lemma wfinal_no_wrap : forall pr ops w,
+    f_ovf (w_f w) = false -> 0 <= f_next (w_f w) -> f_next (w_f w) + n_wp ops <= u32_max ->
+    any_ovf (w_f (wfinal pr w ops)) = false.
+Proof.
+  intros pr ops. induction ops as [|o t IH]; intros w Hf H0 Hn; [exact Hf|].
+  cbn [wfinal]. destruct (wstep pr w o) as [w1 r] eqn:Hs.
+  unfold n_wp in *. cbn [filter] in Hn.
+  assert (Hgoal : f_ovf (w_f w1) = false /\ 0 <= f_next (w_f w1) /\
+                  f_next (w_f w1) + Z.of_nat (length (filter is_wp t)) <= u32_max).
+  { destruct (is_wp o) eqn:Hc.
+    - cbn [length] in Hn. rewrite Nat2Z.inj_succ in Hn. destruct o; try discriminate. cbn [wstep] in Hs.
+      unfold mail in Hs. cbn [fstep] in Hs. unfold create_part in Hs. cbn [fst snd] in Hs.
+      inversion Hs; subst; clear Hs. cbn [w_f push_part set_wf f_ovf f_next].
+      assert (Hne : (f_next (w_f w) =? u32_max) = false) by (apply Z.eqb_neq; lia).
+      assert (Hw : wrap_u32 (f_next (w_f w) + 1) = f_next (w_f w) + 1).
+      { unfold wrap_u32, two32, u32_max in *. rewrite Z.mod_small; lia. }
+      rewrite Hf, Hne, Hw. repeat split; auto; lia.
+    - destruct (wstep_counter pr w o w1 r Hc Hs) as [E1 E2]. rewrite E1, E2. auto. }
+  destruct Hgoal as (G1 & G2 & G3).
+  destruct r; try (apply IH; auto). exact G1.
+Qed.
+
+(* every scenario with fewer than 2^32 create_participant calls *)
 Corollary scenario_no_panic_and_distinct : forall pr ops,
+    n_wp ops <= u32_max ->
     let w := wfinal pr init_world ops in
-    any_ovf (w_f w) = false ->
     ~ In RPanic (wrun pr init_world ops) /\ NoDup (all_handles (w_f w)) /\ NoDup (all_guids (w_f w)).
 Proof.
-  intros pr ops w Ho. destruct (wrun_inv pr ops init_world finv_init Ho) as [Hi Hn].
+  intros pr ops Hn w.
+  assert (Ho : any_ovf (w_f w) = false) by (apply wfinal_no_wrap; cbn; auto; lia).
+  destruct (wrun_inv pr ops init_world finv_init Ho) as [Hi Hnp].
   split; auto. split; [apply all_handles_nodup|apply all_guids_nodup]; auto.
 Qed.
